@@ -144,7 +144,10 @@ def check_props(ck, rel_props, extra_deps=()):
     else:
         ck.obligation('no-forbidden-constructs', True, 'scan of %s' % ', '.join(os.path.relpath(x, COQ) for x in dirs))
     target = rel_props[:-2] + '.vo'
-    rc, out = coq_make([target], force=[rel_props])
+    # siblings too (Corr.v is not a dependency of Props.v but is loaded by the model evaluations)
+    sibs = sorted(os.path.join(os.path.dirname(rel_props), fn[:-2] + '.vo') for fn in os.listdir(d)
+                  if fn.endswith('.v') and not fn.startswith('.'))
+    rc, out = coq_make([target] + [x for x in sibs if x != target], force=[rel_props])
     ck.coq_log = out
     if rc != 0:
         m = re.search(r'File "([^"]+)", line (\d+).*?\n(Error:.*?)(?:\n\n|\Z)', out, re.S)
